@@ -348,9 +348,35 @@ def assert_repo() -> str:
     return repo
 
 
+_WATCHDOG = False
+
+
+def _start_watchdog():
+    """A worker whose runner died (killed, timed out) must not live on holding memory."""
+    global _WATCHDOG
+    if _WATCHDOG:
+        return
+    _WATCHDOG = True
+    import threading
+
+    parent = os.getppid()
+
+    def watch():
+        while True:
+            time.sleep(2.0)
+            if os.getppid() != parent:
+                os._exit(3)
+
+    threading.Thread(target=watch, daemon=True).start()
+
+
 def worker_run(modname: str, unit: dict) -> dict:
     """Runs one unit inside a worker process."""
     t0 = time.time()
+    import multiprocessing as _mp
+
+    if _mp.current_process().name != "MainProcess":
+        _start_watchdog()
     try:
         assert_repo()
         import importlib
